@@ -229,4 +229,59 @@ example : Gen.Hdr.countsIndexFor (cfgOf (new 1 2048 3)) 2048 = 2048 := by decide
 
 end go
 
+/-! ### known finding F22: `New` does not return when the highest trackable value is 2^62 or more
+
+`New`'s sizing loop is `for smallestUntrackableValue <= maxValue { smallestUntrackableValue <<= 1; … }` on `int64`, started at
+`int64(subBucketCount) << unitMagnitude`, a power of two.  In 64-bit arithmetic (this section; the translation in `Gen/Code.lean`
+is over ideal integers and `go_sizing_loop_is_model` is stated below 2^62, where nothing wraps) the register runs through
+2^k, …, 2^62, -2^63, 0, 0, …: every one of them is `<= maxValue` once `maxValue >= 2^62`, so the condition never fails.
+The check replays `hdr-rec 1 4611686018427387904 1 5` against the real code in a child process with a watchdog. -/
+/-- one round of `New`'s sizing loop on the 64-bit register: `smallestUntrackableValue <<= 1` -/
+def sizingStep (x : BitVec 64) : BitVec 64 := x <<< 1
+
+/-- the register after `n` rounds -/
+def sizingRounds : Nat → BitVec 64 → BitVec 64
+  | 0, x => x
+  | n + 1, x => sizingStep (sizingRounds n x)
+
+theorem sizingRounds_shift (x : BitVec 64) : ∀ n : Nat, sizingRounds n x = x <<< n := by
+  intro n
+  induction n with
+  | zero => simp [sizingRounds]
+  | succ n ih => simp [sizingRounds, ih, sizingStep, BitVec.shiftLeft_add]
+
+theorem one_shl_toInt_le (m : Nat) (mx : BitVec 64) (hmx : (2 ^ 62 : Int) ≤ mx.toInt) :
+    ((1#64 <<< m)).toInt ≤ mx.toInt := by
+  have hN : (1#64 <<< m).toNat = 2 ^ m % 2 ^ 64 := by simp [BitVec.toNat_shiftLeft, Nat.shiftLeft_eq]
+  by_cases h1 : m ≤ 62
+  · have hp : 2 ^ m ≤ 2 ^ 62 := Nat.pow_le_pow_right (by decide) h1
+    have hlt : 2 ^ m % 2 ^ 64 = 2 ^ m := Nat.mod_eq_of_lt (by omega)
+    rw [BitVec.toInt_eq_toNat_cond, hN, hlt]
+    have : 2 * 2 ^ m < 2 ^ 64 := by omega
+    simp only [this, if_true]
+    have : ((2 ^ m : Nat) : Int) ≤ 2 ^ 62 := by exact_mod_cast hp
+    omega
+  · by_cases h2 : m = 63
+    · subst h2
+      rw [BitVec.toInt_eq_toNat_cond, hN]
+      simp
+      omega
+    · have h3 : 64 ≤ m := by omega
+      have : 2 ^ m % 2 ^ 64 = 0 := by
+        obtain ⟨d, rfl⟩ := Nat.exists_eq_add_of_le h3
+        rw [Nat.pow_add]; exact Nat.mul_mod_right _ _
+      rw [BitVec.toInt_eq_toNat_cond, hN, this]
+      simp
+      omega
+
+/-- the loop condition `smallestUntrackableValue <= maxValue` holds after every number of rounds -/
+theorem new_sizing_loop_never_exits_from_2_62 (k : Nat) (mx : BitVec 64) (hmx : (2 ^ 62 : Int) ≤ mx.toInt) :
+    ∀ n, (sizingRounds n (1#64 <<< k)).sle mx = true := by
+  intro n
+  rw [sizingRounds_shift, ← BitVec.shiftLeft_add, BitVec.sle_iff_toInt_le]
+  exact one_shl_toInt_le (k + n) mx hmx
+
+/-- non-vacuity: 2^62 itself is such a maximum, and `subBucketCount << unit` = 32 = 1 <<< 5 for one significant figure -/
+example : (2 ^ 62 : Int) ≤ (BitVec.ofNat 64 (2 ^ 62)).toInt ∧ (32#64 = 1#64 <<< 5) := by decide
+
 end Ftdc.Props.C12
